@@ -550,6 +550,11 @@ func (u *Unmarshaler) processFieldNotFromString(fieldType reflect.Type, value re
 			return newTypeMismatchError(fullName)
 		}
 
+		// 时长字段同样受 options= 约束（按原文比较，与环境变量路径一致）
+		if err := validateValueInOptions(dur, opts.options()); err != nil {
+			return err
+		}
+
 		return fillDurationValue(fieldType.Kind(), value, dur)
 	default:
 		return u.processFieldPrimitive(fieldType, value, mapValue, opts, fullName)
